@@ -47,7 +47,7 @@ TSIZE = {1: 3, 2: 5, 3: 9}
 # ------------------------------------------------------------------ shapes
 def shape_size(sh):
     k = sh[0]
-    if k == "tvector":
+    if k in ("tvector", "vector", "runtime_array", "fsarray"):
         return sh[1]
     if k == "tmatrix":
         return sh[1] * sh[2]
@@ -60,13 +60,19 @@ def shape_size(sh):
     raise ValueError(sh)
 
 
-def shape_type(sh):
+def shape_type(sh, vt="double"):
     k = sh[0]
-    if k == "tvector":
-        return "tvector<%du,double>" % sh[1]
+    if k in ("tvector", "fsarray"):
+        return "%s<%du,%s>" % (k, sh[1], vt)
+    if k in ("vector", "runtime_array"):
+        return "%s<%s>" % (k, vt)
     if k == "tmatrix":
-        return "tmatrix<%du,%du,double>" % (sh[1], sh[2])
-    return "%s<%du,double>" % (k, sh[1])
+        return "tmatrix<%du,%du,%s>" % (sh[1], sh[2], vt)
+    return "%s<%du,%s>" % (k, sh[1], vt)
+
+
+RUNTIME_SIZED = ("vector", "runtime_array")
+FLAT_OWNED_ONLY = ("vector", "runtime_array", "fsarray")
 
 
 def access(sh, name, l):
@@ -77,6 +83,8 @@ def access(sh, name, l):
     if k == "st2tost2":
         s = STSIZE[sh[1]]
         return "%s(%d,%d)" % (name, l // s, l % s)
+    if k in FLAT_OWNED_ONLY:
+        return "%s[%d]" % (name, l)
     return "%s(%d)" % (name, l)
 
 
@@ -99,8 +107,11 @@ def program_strategy():
         integers = lambda a, b: rnd.randint(a, b)
         pick = lambda seq: seq[rnd.randrange(len(seq))]
         booleans = lambda: rnd.random() < 0.5
-        family = pick(["tvector", "tvector", "tmatrix", "stensor", "tensor", "st2tost2"])
-        if family == "tvector":
+        family = pick(["tvector", "tvector", "tvector", "tmatrix", "tmatrix", "stensor", "stensor", "tensor", "st2tost2",
+                       "vector", "runtime_array", "fsarray"])
+        if family in FLAT_OWNED_ONLY:
+            shape = [family, integers(1, 8)]
+        elif family == "tvector":
             shape = ["tvector", integers(1, 6)]
         elif family == "tmatrix":
             shape = ["tmatrix", integers(1, 4), integers(1, 4)]
@@ -114,8 +125,8 @@ def program_strategy():
         def datum():
             return integers(-200, 200)
 
-        def new_space(sh):
-            P["spaces"].append({"shape": sh, "name": "h%d" % len(P["spaces"]),
+        def new_space(sh, vt="double"):
+            P["spaces"].append({"shape": sh, "name": "h%d" % len(P["spaces"]), "vt": vt,
                                 "values": [datum() for _ in range(shape_size(sh))]})
             return len(P["spaces"]) - 1
 
@@ -127,9 +138,19 @@ def program_strategy():
             P["cursor"] = off + n
             return off
 
-        def make_operand(sh, mutable, kinds=None):
-            """draws an operand of shape sh; returns its index"""
+        def make_operand(sh, mutable, kinds=None, typed=False):
+            """draws an operand of shape sh; returns its index.  typed: the operand may hold int or float
+            values (only owned operands of element-wise trees: the promotion rules then apply, and every
+            intermediate stays exact in binary32 as well)"""
             n = shape_size(sh)
+            if sh[0] in FLAT_OWNED_ONLY:
+                kinds = ["owned"]
+            if typed and kinds is None and sh[0] in ("tvector", "tmatrix", "stensor") and integers(0, 3) == 0:
+                o = {"shape": sh, "kind": "owned", "const": booleans(), "vt": pick(["int", "float"])}
+                o["space"] = new_space(sh, o["vt"])
+                o["cells"] = list(range(n))
+                P["operands"].append(o)
+                return len(P["operands"]) - 1
             ks = ["strided", "map_ptr", "coalesced", "views_array", "map_tvec", "map_array", "owned"]
             if sh[0] == "tvector":
                 ks = ["column_view", "row_slice", "column_slice", "row_view", "slice"] + ks
@@ -212,7 +233,8 @@ def program_strategy():
 
         def leaf(sh, aliasable):
             """a leaf of shape sh: a fresh operand, a reused one, or (when allowed) the destination"""
-            same = [i for i, o in enumerate(P["operands"]) if o["shape"] == sh and (aliasable or i != P.get("dest"))]
+            same = [i for i, o in enumerate(P["operands"]) if o["shape"] == sh and (aliasable or i != P.get("dest"))
+                    and (aliasable or o.get("vt", "double") == "double")]
             if aliasable and "dest" in P and integers(0, 3) == 0:
                 return ["leaf", P["dest"]]
             if aliasable and "dest" in P and integers(0, 5) == 0:
@@ -225,7 +247,7 @@ def program_strategy():
                     return ["leaf", len(P["operands"]) - 1]
             if same and integers(0, 2) == 0:
                 return ["leaf", pick(same)]
-            return ["leaf", make_operand(sh, False)]
+            return ["leaf", make_operand(sh, False, None, aliasable)]
 
         def tree(sh, depth, aliasable, prods=2):
             """expression of shape sh.  `prods`: how many nested levels of products are still allowed
@@ -235,6 +257,8 @@ def program_strategy():
             r = {0: 2, 1: 3, 2: 4, 3: 5, 4: 6, 5: 7, 6: 8, 7: 9, 8: 0, 9: 1}[integers(0, 9)] if depth > 0 else 0
             if r <= 1:
                 return leaf(sh, aliasable)
+            if r == 8 and sh[0] in RUNTIME_SIZED:
+                r = 2  # eval() of a vector / runtime_array expression does not compile on the unchanged tree
             if r <= 4 or (r == 9 and prods <= 0):
                 return [pick(["add", "sub"]), tree(sh, depth - 1, aliasable, prods), tree(sh, depth - 1, aliasable, prods)]
             if r == 5:
@@ -262,8 +286,9 @@ def program_strategy():
                 c = integers(0, 2)
                 if c == 0:
                     m = integers(1, 3)
-                    return ["matmat", tree(["tmatrix", sh[1], m], min(depth - 1, 1), False, q),
-                            tree(["tmatrix", m, sh[2]], min(depth - 1, 1), False, q)]
+                    # tmatrix * tmatrix does not compile on the unchanged tree when an operand is an
+                    # expression ((m1+m1)*m2: Expr.hxx:65 cannot bind an rvalue): leaves only
+                    return ["matmat", tree(["tmatrix", sh[1], m], 0, False, q), tree(["tmatrix", m, sh[2]], 0, False, q)]
                 if c == 1:
                     return ["dyad", tree(["tvector", sh[1]], depth - 1, False, q), tree(["tvector", sh[2]], depth - 1, False, q)]
                 return ["transpose", ["leaf", make_operand(["tmatrix", sh[2], sh[1]], False, ["owned"])]]
@@ -367,6 +392,8 @@ def classify(P):
     for k in used:
         o = P["operands"][k]
         cl.append("operand." + o["kind"] + (".const" if o["const"] else ""))
+        if o.get("vt", "double") != "double":
+            cl.append("operand.value_type." + o["vt"])
         views = views or o["kind"] != "owned"
     cl.append("dest." + P["operands"][P["dest"]]["kind"])
     nontrivial = n_operators(P) >= 2 and (views or alias)
@@ -562,15 +589,20 @@ def emit_program(P, idx):
     # spaces
     for s, sp in enumerate(P["spaces"]):
         sh, name, n = sp["shape"], sp["name"], shape_size(sp["shape"])
-        L.append("%s %s;" % (shape_type(sh), name))
-        vals = [(val(v) if v is not None else repr(1.0e6 + i)) for i, v in enumerate(sp["values"])]
+        vt = sp.get("vt", "double")
+        if sh[0] in RUNTIME_SIZED:
+            L.append("%s %s(%d);" % (shape_type(sh, vt), name, n))
+        else:
+            L.append("%s %s;" % (shape_type(sh, vt), name))
+        # int spaces hold the integers k, the others the dyadic rationals k/8
+        vals = [((repr(float(v)) if vt == "int" else val(v)) if v is not None else repr(1.0e6 + i)) for i, v in enumerate(sp["values"])]
         L.append("static const double init%d[%d] = {%s};" % (s, n, ", ".join(vals)))
         if s == 0:
             L.append("for (unsigned short i = 0; i < %d; ++i) bk(i) = init0[i];" % n)
             L.append("double* const buf = bk.data(); const double* const cbuf = buf; const auto& cbk = bk; (void)cbuf; (void)cbk; (void)buf;")
         else:
             for l in range(n):
-                L.append("%s = init%d[%d];" % (access(sh, name, l), s, l))
+                L.append("%s = static_cast<%s>(init%d[%d]);" % (access(sh, name, l), vt, s, l))
             L.append("const auto& c%s = %s; (void)c%s;" % (name, name, name))
         L.append("double ref%d[%d]; for (int i = 0; i < %d; ++i) ref%d[i] = init%d[i];" % (s, n, n, s, s))
     # operands
@@ -606,7 +638,7 @@ def emit_program(P, idx):
             L.append("for (unsigned short i = 0; i < %d; ++i) bad += cmp(%d, 0, i, bk(i), ref0[i]);" % (n, idx))
         else:
             for l in range(n):
-                L.append("bad += cmp(%d, %d, %d, %s, ref%d[%d]);" % (idx, s, l, access(sh, name, l), s, l))
+                L.append("bad += cmp(%d, %d, %d, static_cast<double>(%s), ref%d[%d]);" % (idx, s, l, access(sh, name, l), s, l))
     L.append("return bad;")
     L.append("}")
     return "\n".join(L)
@@ -623,6 +655,8 @@ HEADER = r'''// generated by engine/gen/C17_exprtemplates.py -- do not edit
 #include "TFEL/Math/tensor.hxx"
 #include "TFEL/Math/st2tost2.hxx"
 #include "TFEL/Math/fsarray.hxx"
+#include "TFEL/Math/vector.hxx"
+#include "TFEL/Math/runtime_array.hxx"
 #include "TFEL/Math/Array/View.hxx"
 #include "TFEL/Math/Array/ViewsArray.hxx"
 #include "TFEL/Math/Array/CoalescedView.hxx"
